@@ -243,6 +243,13 @@ class Builder:
                     sel = z3.Select(arr, z3.simplify(off + i))
                     self.st.pc.append(z3.Or(sel == ord(c.lower()), sel == ord(c.upper())))
                 ln = z3.IntVal(len(pc[1]))
+            elif pc[0] == "no_block_end":
+                # any text (line ends and `*` included) in which no `*/` STARTS -- the next piece is the terminator itself, so the text may end in `*`
+                _, rname, minlen = pc
+                ln = self.int(rname, minlen)
+                j = z3.Int(f"j!{rname}")
+                c, c1 = z3.Select(arr, j), z3.Select(arr, j + 1)
+                self.st.pc.append(z3.ForAll([j], z3.Implies(z3.And(off <= j, j < off + ln), z3.And(c >= 1, c <= 0x10FFFF, z3.Not(z3.And(c == 42, c1 == 47))))))
             elif pc[0] == "chars":
                 # any characters with code in [lo, hi] except the listed ones
                 _, rname, lo, hi, exclude, minlen = pc
